@@ -335,7 +335,7 @@ func (c *RootConfig) Initialize(ctx context.Context) error {
 		}
 		parentPkgConfig := c.Packages[recursivePackageName]
 		for _, subpkg := range subpkgs {
-			if c.ShouldExcludeSubpkg(subpkg) {
+			if parentPkgConfig.Config.ShouldExcludeSubpkg(subpkg) {
 				pkgLog.Debug().Msg("package was marked for exclusion")
 				continue
 			}
